@@ -2,6 +2,15 @@
   Driver for C16: replays the harness' operation lines through the CIDict model,
   compares the implementation's observations with the model's (correspondence) and
   judges the implementation's observations against the abstract map (`C16.obsOk`).
+
+  Object identity: the harness' registers are Python variables; the model's registers
+  (`stepM`'s `Nat → CIDict`) are *objects* (pairs of dicts).  `handle` maps a variable to the
+  object it currently denotes.  Every operation that creates a header map (constructors, copy,
+  combine, combine_lower_dict) or rebinds a map's two dicts (`replace(plain mapping)`) allocates a
+  fresh object; `replace(other_header_map)` makes the variable denote the OTHER map's object —
+  exactly the sharing the code implements ("without making a copy if possible") — and in-place
+  mutations act on the object, so they are seen through every variable that denotes it.
+  Values are Python ints or `None` (`Option Int`, token `N`).
 -/
 import Upnp.Proto
 import Upnp.Model.CIDict
@@ -11,16 +20,19 @@ namespace Upnp.Drv.C16
 open Upnp Upnp.Proto Upnp.C16 PyDict
 
 abbrev K := String
-abbrev V := Int
+abbrev V := Option Int
 def lower (k : K) : K := k.toLower
 
-/-- number of registers the harness uses (functions `Nat → α` are tabulated after every step:
+/-- number of objects a case may allocate (functions `Nat → α` are tabulated after every step:
     a function-valued result would otherwise be re-evaluated on every lookup) -/
-def nRegs : Nat := 8
+def nCells : Nat := 64
+def nVars : Nat := 8
 
 structure St where
-  ma : Array (CIDict K V) := Array.replicate nRegs CIDict.empty
-  sa : Array (SMap K V) := Array.replicate nRegs []
+  ma : Array (CIDict K V) := Array.replicate nCells CIDict.empty
+  sa : Array (SMap K V) := Array.replicate nCells []
+  handle : Array Nat := Array.replicate nVars 0
+  next : Nat := 1
   probes : List K := []
   corrOk : Bool := true
   judgeOk : Bool := true
@@ -30,20 +42,26 @@ structure St where
 
 def St.m (st : St) : Nat → CIDict K V := fun i => st.ma.getD i CIDict.empty
 def St.s (st : St) : Nat → SMap K V := fun i => st.sa.getD i []
-def tabulate {α : Type} (f : Nat → α) : Array α := (Array.range nRegs).map f
+def St.h (st : St) (r : Nat) : Nat := st.handle.getD r 0
+def tabulate {α : Type} (f : Nat → α) : Array α := (Array.range nCells).map f
+
+def parseV (s : String) : Option V := if s = "N" then some none else s.toInt?.map some
+def fmtV : V → String
+  | none => "N"
+  | some i => toString i
 
 def parsePairs (s : String) : List (K × V) :=
   (commaList s).filterMap fun t =>
     let (a, b) := splitEq t
-    b.toInt?.map fun v => (a, v)
+    (parseV b).map fun v => (a, v)
 
 def fmtPairs (l : List (K × V)) : String :=
-  if l.isEmpty then "~" else ",".intercalate (l.map fun p => s!"{p.1}:{p.2}")
+  if l.isEmpty then "~" else ",".intercalate (l.map fun p => s!"{p.1}:{fmtV p.2}")
 def fmtKK (l : List (K × K)) : String :=
   if l.isEmpty then "~" else ",".intercalate (l.map fun p => s!"{p.1}:{p.2}")
 def fmtOpt (l : List (K × Option V)) : String :=
   if l.isEmpty then "~" else ",".intercalate (l.map fun p => match p.2 with
-    | some v => s!"{p.1}:{v}" | none => s!"{p.1}:!")
+    | some v => s!"{p.1}:{fmtV v}" | none => s!"{p.1}:!")
 def fmtBools (l : List (K × Bool)) : String :=
   if l.isEmpty then "~" else ",".intercalate (l.map fun p => s!"{p.1}:{if p.2 then "T" else "F"}")
 def fmtKeys (l : List K) : String := if l.isEmpty then "~" else ",".intercalate l
@@ -54,12 +72,12 @@ def fmtObs (o : Obs K V) : String :=
 def parseOpt (s : String) : List (K × Option V) :=
   if s = "~" then [] else (s.splitOn ",").map fun t =>
     match t.splitOn ":" with
-    | [a, b] => (a, b.toInt?)
+    | [a, b] => (a, parseV b)
     | _ => (t, none)
 def parsePairsC (s : String) : List (K × V) :=
   if s = "~" then [] else (s.splitOn ",").filterMap fun t =>
     match t.splitOn ":" with
-    | [a, b] => b.toInt?.map fun v => (a, v)
+    | [a, b] => (parseV b).map fun v => (a, v)
     | _ => none
 def parseKK (s : String) : List (K × K) :=
   if s = "~" then [] else (s.splitOn ",").filterMap fun t =>
@@ -88,38 +106,47 @@ def parseObs (toks : List String) : Option (Obs K V) := do
 
 def note (st : St) (s : String) : St := { st with notes := st.notes ++ [s] }
 
-def parseOp (toks : List String) : Option (Op K V) :=
+/-- allocate a fresh object for variable `r` -/
+def fresh (st : St) (r : Nat) : St × Nat :=
+  ({ st with handle := st.handle.setIfInBounds r st.next, next := st.next + 1 }, st.next)
+
+/-- translate a line on variables into an operation on objects (allocating where Python does) -/
+def parseOp (st : St) (toks : List String) : Option (St × Option (Op K V)) :=
   match toks with
-  | ["new", r, "dict", ps] => some (.newDict r.toNat! (parsePairs ps))
-  | ["new", r, "ci", a] => some (.newCI r.toNat! a.toNat!)
-  | ["set", r, k, v] => some (.set r.toNat! k v.toInt!)
-  | ["del", r, k] => some (.del r.toNat! k)
-  | ["dell", r, lk] => some (.delLower r.toNat! lk)
-  | ["copy", r, a] => some (.copy r.toNat! a.toNat!)
-  | ["combine", r, a, b] => some (.combine r.toNat! a.toNat! b.toNat!)
-  | ["combl", r, a, ps] => some (.combineLower r.toNat! a.toNat! (parsePairs ps))
-  | ["repl", r, ps] => some (.replaceDict r.toNat! (parsePairs ps))
-  | ["replci", r, a] => some (.replaceCI r.toNat! a.toNat!)
+  | ["new", r, "dict", ps] => let (st', c) := fresh st r.toNat!; some (st', some (.newDict c (parsePairs ps)))
+  | ["new", r, "ci", a] => let src := st.h a.toNat!; let (st', c) := fresh st r.toNat!; some (st', some (.newCI c src))
+  | ["set", r, k, v] => (parseV v).map fun v => (st, some (.set (st.h r.toNat!) k v))
+  | ["del", r, k] => some (st, some (.del (st.h r.toNat!) k))
+  | ["dell", r, lk] => some (st, some (.delLower (st.h r.toNat!) lk))
+  | ["copy", r, a] => let src := st.h a.toNat!; let (st', c) := fresh st r.toNat!; some (st', some (.copy c src))
+  | ["combine", r, a, b] =>
+      let x := st.h a.toNat!; let y := st.h b.toNat!
+      let (st', c) := fresh st r.toNat!; some (st', some (.combine c x y))
+  | ["combl", r, a, ps] => let src := st.h a.toNat!; let (st', c) := fresh st r.toNat!; some (st', some (.combineLower c src (parsePairs ps)))
+  | ["repl", r, ps] => let (st', c) := fresh st r.toNat!; some (st', some (.replaceDict c (parsePairs ps)))
+  | ["replci", r, a] =>
+      -- `r.replace(a)`: r's two dicts ARE a's from now on (no model operation: same object)
+      some ({ st with handle := st.handle.setIfInBounds r.toNat! (st.h a.toNat!) }, none)
   | _ => none
 
 def stepOp (st : St) (toks : List String) : St :=
   match toks with
   | ["probe", ks] => { st with probes := commaList ks }
   | ["eq", a, b] =>
-      { st with lastRes := if CIDict.eqCI lower (st.m a.toNat!) (st.m b.toNat!) then "T" else "F",
-                lastSpecRes := if smapEq (st.s a.toNat!) (st.s b.toNat!) then "T" else "F" }
+      { st with lastRes := if CIDict.eqCI lower (st.m (st.h a.toNat!)) (st.m (st.h b.toNat!)) then "T" else "F",
+                lastSpecRes := if smapEq (st.s (st.h a.toNat!)) (st.s (st.h b.toNat!)) then "T" else "F" }
   | ["eqd", a, ps] =>
       let l := PyDict.ofList (parsePairs ps)
-      { st with lastRes := if CIDict.eqDict lower (st.m a.toNat!) l then "T" else "F",
-                lastSpecRes := if smapEq (st.s a.toNat!) (SMap.writeAll lower [] l) then "T" else "F" }
+      { st with lastRes := if CIDict.eqDict lower (st.m (st.h a.toNat!)) l then "T" else "F",
+                lastSpecRes := if smapEq (st.s (st.h a.toNat!)) (SMap.writeAll lower [] l) then "T" else "F" }
   | "res" :: [t] =>
       let st := if t = st.lastRes then st
                 else note { st with corrOk := false } s!"res impl={t} model={st.lastRes}"
       if t = st.lastSpecRes then st
       else note { st with judgeOk := false } s!"res impl={t} spec={st.lastSpecRes}"
   | "obs" :: r :: rest =>
-      let d := st.m r.toNat!
-      let sm := st.s r.toNat!
+      let d := st.m (st.h r.toNat!)
+      let sm := st.s (st.h r.toNat!)
       let mo := fmtObs (observe lower st.probes d)
       let io := " ".intercalate rest
       let st := if mo = io then st
@@ -129,11 +156,13 @@ def stepOp (st : St) (toks : List String) : St :=
                    else note { st with judgeOk := false } s!"judge r{r} impl[{io}] spec[{fmtKK (sm.map fun p => (p.1, p.2.1))}|{fmtPairs (sm.map fun p => (p.1, p.2.2))}]"
        | none => note { st with judgeOk := false } s!"unparsable obs r{r}")
   | _ =>
-    match parseOp toks with
-    | some op =>
-        { st with ma := tabulate (stepM lower st.m op), sa := tabulate (stepS lower st.s op),
-                  lastRes := if raisesM lower st.m op then "KeyError" else "ok",
-                  lastSpecRes := if raisesS lower st.s op then "KeyError" else "ok" }
+    match parseOp st toks with
+    | some (st', some op) =>
+        if st'.next > nCells then note { st with corrOk := false } "too many objects in one case" else
+        { st' with ma := tabulate (stepM lower st.m op), sa := tabulate (stepS lower st.s op),
+                   lastRes := if raisesM lower st.m op then "KeyError" else "ok",
+                   lastSpecRes := if raisesS lower st.s op then "KeyError" else "ok" }
+    | some (st', none) => { st' with lastRes := "ok", lastSpecRes := "ok" }
     | none => note { st with corrOk := false } s!"bad-op {" ".intercalate toks}"
 
 def main : IO UInt32 := do
